@@ -10,7 +10,8 @@ from common import ModelRun, model_classes, cx, pipeline_guard, crash_result
 from drive import Result
 
 RULE = ("Hypothesis generates lattices (1-5 sites, 1-3 orbitals, 1-3 spins, arbitrary labels, up to 12 modes; a quarter with up to 9 orbitals and "
-        "spin multiplicity up to 6 per site, up to 60 modes, bookkeeping only), an ordering mode "
+        "spin multiplicity up to 6 per site, up to 60 modes, bookkeeping only; a sixth with two site labels whose boost::hash values agree in the "
+        "low 24-40 bits), an ordering mode "
         "(site-major / spin-major), a set of non-existent (label, orbital, spin) triples, and for lattices with <=5 modes (quick; <=6 "
         "thorough) a Hamiltonian, an injective relabelling of the sites and a second ordering mode.  Bookkeeping: the forward map over all "
         "valid triples is exactly {0..N-1}, getInfo/getIndex are mutual inverses, getIndexSize = sum orbitals*spins, a non-existent triple "
